@@ -4,7 +4,7 @@
    ChecksumFile.ReadAt with len(b)=len, cap(b)=cap; write_at/append/size_of/scrub transcribe WriteAt/append/
    Size/Scrub; run_ck / run_plain run an op sequence on the checksummed file / on an ordinary file. *)
 From Coq Require Import List NArith ZArith.
-From BLB Require Import Lib.CRC C08.CRCTab C08.Model C08.Proofs C08.Proofs2 C08.Refine C08.Refine2 C08.Tamper.
+From BLB Require Import Lib.CRC C08.CRCTab C08.Model C08.Proofs C08.Proofs2 C08.Refine C08.Refine2 C08.Tamper C08.Tamper2 C08.Enospc C08.Trunc.
 Import ListNotations.
 Open Scope N_scope.
 
@@ -63,21 +63,57 @@ Theorem ckfile_detects_burst :
 Proof. exact detects_burst_abs_lemma. Qed.
 Print Assumptions ckfile_detects_burst.
 
-(* [PARTIAL] the same for the model's own TamperXor operation, the raw xor the harness applies to the real file. On a
-   sound file of bytes below 256, xor-ing any non-zero pattern of at most 32 bits at any raw bit position is one burst
-   in block k, tamper_xor_is_burst, hence every ReadAt touching block k returns the corruption error and only the
-   logical content before block k, other reads are unchanged and Scrub reports corruption. Partial only in scope, the
-   five bytes starting at byte bit div 8, which a 32-bit pattern shifted by bit mod 8 can reach, must lie inside the
-   stored bytes of block k, so bursts starting in the last four stored bytes of a block are covered by
-   ckfile_detects_burst but not linked to this operation *)
-Theorem ckfile_tamper_xor_detected_partial :
+(* [FULL] the same for the model's own TamperXor operation, the raw xor the harness applies to the real file. On a
+   sound file of bytes below 256, xor-ing any non-zero pattern of at most 32 bits at any raw bit position such that
+   every set bit of the pattern lands inside the stored bytes of block k, data or checksum, including bursts that
+   start in the last stored bytes of the block, is one burst in block k, tamper_xor_is_burst_full. Hence every ReadAt
+   touching block k returns the corruption error and only the logical content before block k, other reads are
+   unchanged and Scrub reports corruption. N.size pat is the position of the highest set bit plus one *)
+Theorem ckfile_tamper_xor_detected :
   forall r bit pat k,
     Inv_raw r -> Forall (fun x => x < 256) r -> 0 < pat -> pat < 2 ^ 32 ->
-    BL * k <= bit / 8 -> bit / 8 + 5 <= BL * k + lenN (chunk_of r k) ->
+    BL * k <= bit / 8 -> bit + N.size pat <= 8 * (BL * k + lenN (chunk_of r k)) ->
     let r' := tamper_xor r bit pat in
     (forall off len cap, touches k off len ->
         read_at r' off len cap = (take (k * DL - off) (drop off (abs r)), E_CORRUPT)) /\
     (forall off len cap, ~ touches k off len -> read_at r' off len cap = read_at r off len cap) /\
     snd (scrub r') = E_CORRUPT.
-Proof. exact tamper_xor_detected_lemma. Qed.
-Print Assumptions ckfile_tamper_xor_detected_partial.
+Proof. exact tamper_xor_detected_full_lemma. Qed.
+Print Assumptions ckfile_tamper_xor_detected.
+
+(* [FULL] truncation, reads that run into the fragment. r is a sound file, Inv_raw, and r' is r cut to n raw bytes
+   leaving a last fragment of 1 to blockChecksumLength bytes in block k = n div blockLength. Then every ReadAt that
+   touches block k, wherever it starts and with any spare capacity, returns the corruption error together with
+   exactly the bytes of the logical content abs r from off up to the start of block k and nothing of block k, and
+   every non-empty ReadAt that ends before block k returns exactly what it returned before the cut. Complements
+   ckfile_truncation, which covers Size, WriteAt, append, Scrub and reads starting in the fragment block *)
+Theorem ckfile_truncation_reads :
+  forall r n, Inv_raw r -> n <= lenN r -> bad_fragment (take n r) ->
+    let r' := take n r in
+    let k := n / BL in
+    (forall off len cap, touches k off len ->
+        read_at r' off len cap = (take (k * DL - off) (drop off (abs r)), E_CORRUPT)) /\
+    (forall off len cap, 0 < len -> (off + len - 1) / DL < k ->
+        read_at r' off len cap = read_at r off len cap).
+Proof. exact truncation_reads_lemma. Qed.
+Print Assumptions ckfile_truncation_reads.
+
+(* [FULL] running out of space, the short-write path of writeBlock. Fault oracle, stated in Model.raw_write_q: the
+   file system has free bytes left, bytes of a raw write that overwrite existing bytes or fall into a hole always
+   succeed, bytes that extend the file consume free space, and when it is used up os.File.WriteAt is short and
+   returns ENOSPC, truncation gives bytes back. write_at_q transcribes WriteAt with writeBlock's error handling,
+   retry with a shorter block carrying its own checksum, or truncation of a bare checksum fragment. For every sound
+   file, every amount of free space, every offset and data, the file after the call is again sound, Inv_raw, with no
+   weakening. Either the call succeeded, count = len and the content is the ordinary file's, or it returned ENOSPC
+   and the content is the first m bytes of what the ordinary file would hold, with m at least the old size and less
+   than the intended size, so nothing that was there is lost, and the count returned is m - off. In both cases every
+   later ReadAt returns exactly the bytes of that content, never altered bytes, and Scrub succeeds *)
+Theorem ckfile_enospc_prefix :
+  forall r free off d, Inv_raw r ->
+    let '(r', _, cnt, e) := write_at_q r free off d in
+    Inv_raw r' /\
+    enospc_outcome (abs r) off d (abs r') cnt e /\
+    (forall o l cap, read_at r' o l cap = plain_read (abs r') o l) /\
+    scrub r' = (lenN (abs r'), E_OK).
+Proof. exact enospc_prefix_lemma. Qed.
+Print Assumptions ckfile_enospc_prefix.
